@@ -2076,6 +2076,14 @@ class Engine:
                 return False          # bound outside a `for` target as well: not this pattern
         return True
 
+    def frame_trip(self, msg):
+        """recorded, not raised: the states explored from the under-approximated head are real ones (the first iteration's), so an
+        obligation that FAILS from there is reported as before; only a unit in which nothing fails must not be called held - the
+        runner turns it into undecided with this reason"""
+        trips = self.__dict__.setdefault("frame_trips", [])
+        if msg not in trips:
+            trips.append(msg)
+
     def loop_frame_check(self, lid, n, spec, before, head, end, heads=None):
         """A loop under an invariant is executed once from an arbitrary iteration's state (`head` = the entry state `before` with the
         specification's havoc applied).  That is sound only if everything an iteration can change was havoc'd: a local or a heap
@@ -2090,7 +2098,7 @@ class Engine:
                     continue
                 havocked = any(name in hd.frames[depth] and not self._same_value(fb[name], hd.frames[depth][name]) for hd in heads if depth < len(hd.frames))
                 if not havocked and not self._same_value(vh, fe[name]) and not self._only_an_inner_loop_target(n, name):
-                    raise Unsupported(f"loop {lid} (line {n.lineno}) rebinds `{name}`, which its specification does not expect to change between iterations")
+                    self.frame_trip(f"loop {lid} (line {n.lineno}) rebinds `{name}`, which its specification does not expect to change between iterations")
         for oid, hh in head.heap.items():
             if oid not in before.heap or oid not in end.heap:
                 continue
@@ -2098,7 +2106,7 @@ class Engine:
             havocked = any(oid in hd.heap and not self._same_value(hb, hd.heap[oid]) for hd in heads)
             if not havocked and not self._same_value(hh, he):
                 what = "a list" if isinstance(hh, list) else f"an object with fields {sorted(map(str, hh))[:6]}" if isinstance(hh, dict) else "an object"
-                raise Unsupported(f"loop {lid} (line {n.lineno}) changes {what} that its specification does not expect to change between iterations")
+                self.frame_trip(f"loop {lid} (line {n.lineno}) changes {what} that its specification does not expect to change between iterations")
 
     def ex_While(self, n, st):
         lid = self.loop_ids.get((n.lineno, n.col_offset))
